@@ -163,8 +163,9 @@ def doc : Nat → DTask → Env → DSt → DRes
       let out ← renderVal v
       pure (out, st)
   | n + 1, .xexpr (.call f args), loc, st => do
+      let fv ← eval (dlook loc st) f
       let vs ← evalArgs (dlook loc st) args
-      let m ← getDMacro st (dlook loc st f)
+      let m ← getDMacro st fv
       let scope ← bindParams m.params vs
       doc n (.dirs m.dirs m.target) (scope ++ loc) st
   | n + 1, .dirs [] (.elem tag attrs kids), loc, st =>
